@@ -109,24 +109,33 @@ def Expr.arrLeaves : Expr → List View
   | .arr v => [v]
   | .fixed _ _ => []
   | .agn => []
-  | .un e => e.arrLeaves
-  | .bin l r => l.arrLeaves ++ r.arrLeaves
+  | .spread _ v => [v]
+  | .outer _ r => [r]
+  | .plain => []
+  | .un _ e => e.arrLeaves
+  | .bin _ l r => l.arrLeaves ++ r.arrLeaves
 
 /-- the `FixedArray` leaves: address and extents -/
 def Expr.fixedLeaves : Expr → List (Nat × List Nat)
   | .arr _ => []
   | .fixed a d => [(a, d)]
   | .agn => []
-  | .un e => e.fixedLeaves
-  | .bin l r => l.fixedLeaves ++ r.fixedLeaves
+  | .spread _ _ => []
+  | .outer _ _ => []
+  | .plain => []
+  | .un _ e => e.fixedLeaves
+  | .bin _ l r => l.fixedLeaves ++ r.fixedLeaves
 
 /-- what every leaf answers to `alignment_offset_<W>()` -/
 def Expr.leafOffs (cfg : Cfg) (W : Nat) : Expr → List Int
   | .arr v => [(arrOffset W v.a : Int)]
   | .fixed a _ => [(fixedOffset cfg W a : Int)]
   | .agn => [(W : Int)]
-  | .un e => e.leafOffs cfg W
-  | .bin l r => l.leafOffs cfg W ++ r.leafOffs cfg W
+  | .spread _ v => [(arrOffset W v.a : Int)]
+  | .outer _ r => [(arrOffset W r.a : Int)]
+  | .plain => [(W : Int)]
+  | .un _ e => e.leafOffs cfg W
+  | .bin _ l r => l.leafOffs cfg W ++ r.leafOffs cfg W
 
 theorem fixedOffset_lt {cfg : Cfg} {W : Nat} (a : Nat) (hW : 0 < W) : fixedOffset cfg W a < W := by
   unfold fixedOffset; split <;> exact Nat.mod_lt _ hW
@@ -141,8 +150,15 @@ theorem leafOffs_range {cfg : Cfg} {W : Nat} (hW : 0 < W) (e : Expr) :
     intro o ho; simp only [Expr.leafOffs, List.mem_singleton] at ho
     have := fixedOffset_lt (cfg := cfg) a hW; omega
   | agn => intro o ho; simp only [Expr.leafOffs, List.mem_singleton] at ho; omega
-  | un e ih => exact ih
-  | bin l r ihl ihr =>
+  | spread _ v =>
+    intro o ho; simp only [Expr.leafOffs, List.mem_singleton] at ho
+    have := arrOffset_lt v.a hW; omega
+  | outer _ r =>
+    intro o ho; simp only [Expr.leafOffs, List.mem_singleton] at ho
+    have := arrOffset_lt r.a hW; omega
+  | plain => intro o ho; simp only [Expr.leafOffs, List.mem_singleton] at ho; omega
+  | un _ e ih => exact ih
+  | bin _ l r ihl ihr =>
     intro o ho; simp only [Expr.leafOffs, List.mem_append] at ho
     rcases ho with h | h
     · exact ihl o h
@@ -155,8 +171,11 @@ theorem alignOff_leaves {cfg : Cfg} {W : Nat} (e : Expr) :
   | arr v => intro k hk _ o ho; simp only [Expr.leafOffs, List.mem_singleton] at ho; left; rw [ho, ← hk]; rfl
   | fixed a d => intro k hk _ o ho; simp only [Expr.leafOffs, List.mem_singleton] at ho; left; rw [ho, ← hk]; rfl
   | agn => intro k _ _ o ho; simp only [Expr.leafOffs, List.mem_singleton] at ho; right; exact ho
-  | un e ih => intro k hk hne o ho; exact ih k hk hne o ho
-  | bin l r ihl ihr =>
+  | spread _ v => intro k hk _ o ho; simp only [Expr.leafOffs, List.mem_singleton] at ho; left; rw [ho, ← hk]; rfl
+  | outer _ r => intro k hk _ o ho; simp only [Expr.leafOffs, List.mem_singleton] at ho; left; rw [ho, ← hk]; rfl
+  | plain => intro k _ _ o ho; simp only [Expr.leafOffs, List.mem_singleton] at ho; right; exact ho
+  | un _ e ih => intro k hk hne o ho; exact ih k hk hne o ho
+  | bin _ l r ihl ihr =>
     intro k hk hne o ho
     simp only [Expr.leafOffs, List.mem_append] at ho
     simp only [Expr.alignOff] at hk
@@ -187,8 +206,11 @@ theorem alignOff_range {cfg : Cfg} {W : Nat} (hW : 0 < W) (e : Expr) :
   | arr v => right; simp only [Expr.alignOff]; have := arrOffset_lt v.a hW; omega
   | fixed a d => right; simp only [Expr.alignOff]; have := fixedOffset_lt (cfg := cfg) a hW; omega
   | agn => right; simp only [Expr.alignOff]; omega
-  | un e ih => exact ih
-  | bin l r ihl ihr =>
+  | spread _ v => right; simp only [Expr.alignOff]; have := arrOffset_lt v.a hW; omega
+  | outer _ r => right; simp only [Expr.alignOff]; have := arrOffset_lt r.a hW; omega
+  | plain => right; simp only [Expr.alignOff]; omega
+  | un _ e ih => exact ih
+  | bin _ l r ihl ihr =>
     simp only [Expr.alignOff]
     split
     · exact ihl
@@ -239,8 +261,11 @@ theorem arrLeaves_offs {cfg : Cfg} {W : Nat} (e : Expr) :
   | arr v => intro v' hv; simp only [Expr.arrLeaves, List.mem_singleton] at hv; subst hv; simp [Expr.leafOffs]
   | fixed a d => intro v hv; simp [Expr.arrLeaves] at hv
   | agn => intro v hv; simp [Expr.arrLeaves] at hv
-  | un e ih => exact ih
-  | bin l r ihl ihr =>
+  | spread _ v => intro v' hv; simp only [Expr.arrLeaves, List.mem_singleton] at hv; subst hv; simp [Expr.leafOffs]
+  | outer _ r => intro v' hv; simp only [Expr.arrLeaves, List.mem_singleton] at hv; subst hv; simp [Expr.leafOffs]
+  | plain => intro v hv; simp [Expr.arrLeaves] at hv
+  | un _ e ih => exact ih
+  | bin _ l r ihl ihr =>
     intro v hv; simp only [Expr.arrLeaves, List.mem_append] at hv
     simp only [Expr.leafOffs, List.mem_append]
     rcases hv with h | h
@@ -253,8 +278,11 @@ theorem fixedLeaves_offs {cfg : Cfg} {W : Nat} (e : Expr) :
   | arr v => intro p hp; simp [Expr.fixedLeaves] at hp
   | fixed a d => intro p hp; simp only [Expr.fixedLeaves, List.mem_singleton] at hp; subst hp; simp [Expr.leafOffs]
   | agn => intro p hp; simp [Expr.fixedLeaves] at hp
-  | un e ih => exact ih
-  | bin l r ihl ihr =>
+  | spread _ v => intro p hp; simp [Expr.fixedLeaves] at hp
+  | outer _ r => intro p hp; simp [Expr.fixedLeaves] at hp
+  | plain => intro p hp; simp [Expr.fixedLeaves] at hp
+  | un _ e ih => exact ih
+  | bin _ l r ihl ihr =>
     intro p hp; simp only [Expr.fixedLeaves, List.mem_append] at hp
     simp only [Expr.leafOffs, List.mem_append]
     rcases hp with h | h
@@ -268,8 +296,11 @@ theorem allContig_arr {cfg : Cfg} {W : Nat} (e : Expr) (h : e.allContig cfg W = 
   | arr v => intro v' hv; simp only [Expr.arrLeaves, List.mem_singleton] at hv; subst hv; exact h
   | fixed a d => intro v hv; simp [Expr.arrLeaves] at hv
   | agn => intro v hv; simp [Expr.arrLeaves] at hv
-  | un e ih => exact ih h
-  | bin l r ihl ihr =>
+  | spread _ v => intro v' hv; simp only [Expr.arrLeaves, List.mem_singleton] at hv; subst hv; exact h
+  | outer _ r => intro v' hv; simp only [Expr.arrLeaves, List.mem_singleton] at hv; subst hv; exact h
+  | plain => intro v hv; simp [Expr.arrLeaves] at hv
+  | un _ e ih => exact ih h
+  | bin _ l r ihl ihr =>
     simp only [Expr.allContig, Bool.and_eq_true] at h
     intro v hv; simp only [Expr.arrLeaves, List.mem_append] at hv
     rcases hv with h' | h'
@@ -282,8 +313,11 @@ theorem allContig_fixed {cfg : Cfg} {W : Nat} (e : Expr) (h : e.allContig cfg W 
   | arr v => intro p hp; simp [Expr.fixedLeaves] at hp
   | fixed a d => intro p hp; simp only [Expr.fixedLeaves, List.mem_singleton] at hp; subst hp; exact h
   | agn => intro p hp; simp [Expr.fixedLeaves] at hp
-  | un e ih => exact ih h
-  | bin l r ihl ihr =>
+  | spread _ v => intro p hp; simp [Expr.fixedLeaves] at hp
+  | outer _ r => intro p hp; simp [Expr.fixedLeaves] at hp
+  | plain => intro p hp; simp [Expr.fixedLeaves] at hp
+  | un _ e ih => exact ih h
+  | bin _ l r ihl ihr =>
     simp only [Expr.allContig, Bool.and_eq_true] at h
     intro p hp; simp only [Expr.fixedLeaves, List.mem_append] at hp
     rcases hp with h' | h'
